@@ -32,7 +32,8 @@ Clauses
   C20.restore_after_exit           after leaving the outermost block every standard and every listed target `is`
                                    the original                                          class  target=<kind>,exit=<mode>
   C20.restore_after_failed_setup   after an enter that raised, no watched attribute that was the original before
-                                   is something else                                     class  targets=<target list id>
+                                   is something else           class  targets=<target list id>[,after-failed-setup]
+                                   (the suffix marks attempts made after an earlier failed set-up of the history)
   C20.closed                       a connection obtained inside raises when used after the block was left
                                                                                          class  exit=<mode>
   C20.exit_clean                   leaving normally does not raise; leaving with an exception does not raise a
@@ -421,7 +422,7 @@ def judge_patch(pre, op, obs):
                     out.append(
                         (
                             "C20.restore_after_failed_setup",
-                            f"targets={tlid}",
+                            f"targets={tlid}" + (",after-failed-setup" if last == "failed-setup" else ""),
                             bool(newly),
                             {"raised": raised, "not_original_afterwards": newly, "status": dict(zip(KINDS, st))},
                         )
@@ -516,7 +517,7 @@ OPTION_VALUES = {
     "create_database_on_connect": [True, False],
     "create_schema_on_connect": [True, False],
     "db_path": [None, "dir"],
-    "nop_regexes": [None, ["^CALL C20_NOP"]],
+    "nop_regexes": [None, ["^select c20_undefined_fn"]],
 }
 
 
@@ -543,7 +544,7 @@ def options_probe(connect):
         out.append(("connect", "err", exc_name(e)))
     if c is not None:
         cur = c.cursor()
-        for sql in ("create table T (A int)", "insert into T values (1),(2)", "select count(*) from T", "CALL C20_NOP()"):
+        for sql in ("create table T (A int)", "insert into T values (1),(2)", "select count(*) from T", "select c20_undefined_fn()"):
             out.append((sql,) + _stmt(cur, sql))
     try:
         c2 = connect()
@@ -586,8 +587,8 @@ def judge_options(opts, res):
     out.append(("C20.options", "differential", p != dr, {"options": opts, "patch": p, "direct": dr}))
     steps = dict((s[0], s[1:]) for s in p[0])
     if steps.get("connect") == ("ok",):
-        nop_ok = steps.get("CALL C20_NOP()", ("?",))[0] == "ok"
-        out.append(("C20.options", "nop_regexes", nop_ok != bool(opts["nop_regexes"]), {"options": opts, "call": steps.get("CALL C20_NOP()")}))
+        nop_ok = steps.get("select c20_undefined_fn()", ("?",))[0] == "ok"
+        out.append(("C20.options", "nop_regexes", nop_ok != bool(opts["nop_regexes"]), {"options": opts, "call": steps.get("select c20_undefined_fn()")}))
         if opts["create_database_on_connect"]:
             has = "C20O.db" in p[1]
             out.append(("C20.options", "db_path", has != bool(opts["db_path"]), {"options": opts, "files": p[1]}))
